@@ -290,6 +290,65 @@ fn histories(rep: &Reporter, c: &Counters, depth: usize) -> BfsStats {
     st
 }
 
+/// the singletons over their whole value range: XLAT for every AL, SAHF for every AH, LAHF / PUSHF for
+/// every flag word, POPF for every popped word
+fn sweep_singletons(rep: &Reporter, c: &Counters) {
+    let jobs: Vec<ZeroOp> = vec![ZeroOp::Xlat, ZeroOp::Sahf, ZeroOp::Lahf, ZeroOp::Pushf, ZeroOp::Popf];
+    jobs.par_iter().for_each(|zop| {
+        let i = Instr::Zero(*zop);
+        let site = i.shape();
+        let n: u32 = match zop {
+            ZeroOp::Xlat => 256 * 6,
+            ZeroOp::Sahf => 256 * 4,
+            _ => 65536,
+        };
+        let chunks: Vec<u32> = (0..n).step_by(2048).collect();
+        chunks.par_iter().for_each(|lo| {
+            with_worker(|wk| {
+                let mut p = match prepare(&i) {
+                    Ok(p) => p,
+                    Err(e) => {
+                        c.block(format!("{}: {:?}", site, e));
+                        return;
+                    }
+                };
+                for k in *lo..(*lo + 2048).min(n) {
+                    let mut pre = RefM { r: Regs::distinct(0x17), m: SMem::new(0), call_stack: vec![] };
+                    pre.r.flag = 0xF000;
+                    pre.r.ss = 0x0300;
+                    pre.r.sp = 0x0080;
+                    pre.r.ds = 0x0100;
+                    match zop {
+                        ZeroOp::Xlat => {
+                            let al = k & 0xFF;
+                            let bx = [0x0000u16, 0x0040, 0xFF00, 0xFF80, 0xFFFF, 0x1234][(k >> 8) as usize];
+                            pre.r.bx = bx;
+                            pre.r.ax = 0x7700 | al as u16;
+                            // a table of distinct bytes around the reference address, decoys elsewhere
+                            let off = bx.wrapping_add(al as u16);
+                            pre.m.set(phys(0x0100, off), (al as u8) ^ 0xA5);
+                            pre.m.set(phys(0x0100, off.wrapping_sub(256)), 0x11);
+                            pre.m.set((0x1000 + bx as u32 + al) & 0xFFFFF, 0x22);
+                        }
+                        ZeroOp::Sahf => {
+                            pre.r.ax = ((k & 0xFF) << 8) as u16 | 0x5A;
+                            pre.r.flag = [0xF000u16, 0xFFFF, 0x0AD5, 0xF801][(k >> 8) as usize];
+                        }
+                        ZeroOp::Lahf | ZeroOp::Pushf => pre.r.flag = k as u16,
+                        ZeroOp::Popf => {
+                            pre.m.set16(phys(0x0300, 0x0080), k as u16);
+                            pre.r.flag = if k & 1 == 0 { 0xF000 } else { 0xFFFF };
+                        }
+                        _ => {}
+                    }
+                    wk.case(rep, c, &mut p, &pre, &site, &[("k", k as i64)], k as u64, true);
+                }
+                wk.flush(c);
+            })
+        });
+    });
+}
+
 /// PUSH / POP of a memory operand that overlaps the stack slot it is pushed to / popped from:
 /// the operand is read completely before anything is written
 fn sweep_overlap(rep: &Reporter, c: &Counters) {
@@ -475,6 +534,7 @@ pub fn run(tier: &Tier) -> i32 {
     let st = histories(&rep, &c, depth);
     roundtrips(&rep, &c);
     sweep_overlap(&rep, &c);
+    sweep_singletons(&rep, &c);
     // general histories
     let seq_depth = if tier.thorough { 4 } else { 3 };
     let seq = {
